@@ -13,7 +13,8 @@
 //                         inert), one observation record per round for spec/asyncreq/AsyncReqObs.tla;
 //                         --payload tracked -> a plain payload that zeroes its source on move,
 //                         --payload pod -> a plain payload that is copied by a move (no registry, no
-//                         lock in either: nothing but the AsyncRequest synchronises the threads)
+//                         lock in either: nothing but the AsyncRequest synchronises the threads);
+//                         --stuckat R: self-test of the watchdog (consumer 1 never starts round R)
 //
 // The optional type behind AsyncRequest depends on the language standard of the build; the driver
 // reports which move semantics the spec has to use ("mode"): C++14 -> detail::OpResult -> "clear";
@@ -334,7 +335,7 @@ static const char* liteMode() {
 }
 
 namespace stress {
-constexpr int kMaxOps = 40;
+constexpr int kMaxOps = 160;
 constexpr int kThreads = 6; // 0..2 consumers, 3..5 producers
 struct alignas(128) ThreadSlot {
   std::atomic<long long> go{-1}; // round this thread has to run; -2: shut down
@@ -433,6 +434,7 @@ static int runStress(const drv::Args& a) {
   long long rounds = a.num("stress", 1000);
   uint64_t rng = (uint64_t)a.num("seed", 1) * 0x9e3779b97f4a7c15ULL + 11;
   const char* mode = liteMode<P>();
+  const long long stuckAt = a.num("stuckat", -1);
   alignas(128) static char reqBuf[sizeof(Req)];
 
   std::vector<std::thread> threads;
@@ -464,6 +466,7 @@ static int runStress(const drv::Args& a) {
   int nc = 1, np = 1;
   std::string rec;
   for (long long r = 0; r < rounds; ++r) {
+    const long long live0 = LiveCount::n().load();
     Req* req = new (reqBuf) Req();
     sh.req = req;
     if (r % 16 == 0) {
@@ -472,7 +475,7 @@ static int runStress(const drv::Args& a) {
     }
     sh.nactive = nc + np;
     // short and long programs; every thread of a round has about the same length so that they overlap
-    int len = 2 + (int)(ctl::splitmix(rng) % (kMaxOps - 1)); // 2..40
+    int len = 2 + (int)(ctl::splitmix(rng) % (kMaxOps - 1)); // 2..160
     for (int i = 0; i < kThreads; ++i) {
       ThreadSlot& tp = sh.th[i];
       bool consumer = i < 3;
@@ -497,7 +500,7 @@ static int runStress(const drv::Args& a) {
     sh.arrived.store(0, std::memory_order_relaxed);
     sh.done.store(0, std::memory_order_relaxed);
     for (int i = 0; i < kThreads; ++i)
-      if (sh.th[i].nops)
+      if (sh.th[i].nops && !(r == stuckAt && i == 0)) // --stuckat R: self-test of the watchdog
         sh.th[i].go.store(r, std::memory_order_release);
     int idle = 0;
     while (sh.done.load(std::memory_order_acquire) != sh.nactive) {
@@ -513,7 +516,7 @@ static int runStress(const drv::Args& a) {
       drain = !g.has_value() ? 0 : (g.value().id ? g.value().id : -1);
     }
     req->~Req();
-    long long live = LiveCount::n().load();
+    long long live = LiveCount::n().load() - live0; // payload objects this round left behind
     char head[200];
     snprintf(head, sizeof(head), "{\"e\":\"Round\",\"round\":%lld,\"mode\":\"%s\",\"nc\":%d,\"np\":%d,\"stuck\":0,\"c\":[",
              r, mode, nc, np);
